@@ -311,6 +311,12 @@ def palette_extent(ctx, F):
             src = G.strip(v[1])[1]
             txt = G.show(N(src))
             src_ok = "remaining" in txt or ("index" in txt and "buffer" in txt)
+            # or the rest a cursor-style reader holds: a slice-typed field of a local whose type is the private Reader
+            rs = G.strip(src)
+            if not src_ok and rs[0] == "fld" and len(rs) > 4 and str(rs[4]).startswith("&") and str(rs[4]).endswith("[u8]"):
+                base = rs[1]
+                if base[0] == "opq" and len(base) > 2 and base[1] == "phi" and isinstance(base[2], int):
+                    src_ok = "framebuffer::Reader" in str(A.body.local_ty(base[2]))
             how += "; source slice = %s" % txt[:100]
         ctx.check(ok and src_ok, "L5", "FramebufferTag:palette", "palette = n colours starting at the reader position with n * 3 <= bytes remaining in the tag's buffer "
                   "(never past the declared size)", s.span, how=how, why=how)
